@@ -34,6 +34,8 @@ def pvi(x, tol=1e-9):
             return [1, 0]
         if xi <= -(2**31) + 1:
             return [-1, 0]
+    if isinstance(x, (float, np.floating)) and np.isfinite(x) and abs(float(x)) > 2**31:
+        return [(-1 if x < 0 else 1) * 2**30, 1]     # huge finite sentinel, same abstraction as sched.project_fill
     return pv(x, tol)
 
 
